@@ -29,7 +29,7 @@ ASSUMPTIONS = [
     "a notification may also be delivered when nothing changed; what is judged is that one IS delivered (to every table member) after each accepted change",
     "bare moves change the cell only in Isobaric / Isotension (the drivers whose state includes the cell and which can revert it) and the atom count changes only in GrandCanonical (through the shipped exchange move next to the bare move)",
 ]
-REQUIRED = {"bare_move_calls": 1500, "bare_criteria_calls": 500, "falsy_results": 300, "truthy_results": 300, "atom_count_changes": 100, "cell_changes": 100, "roundtrips": 12, "attribute_accesses_logged": 2000, "bare_criteria_verdicts_checked": 300}
+REQUIRED = {"accepted_swaps_changing_atom_count": 5, "bare_move_calls": 1500, "bare_criteria_calls": 500, "falsy_results": 300, "truthy_results": 300, "atom_count_changes": 100, "cell_changes": 100, "roundtrips": 12, "attribute_accesses_logged": 2000, "bare_criteria_verdicts_checked": 300}
 SHARD_TIMEOUT = {"quick": 900, "thorough": 3000}
 
 PROTOCOL = {"__call__", "evaluate", "on_atoms_changed", "on_cell_changed", "to_dict", "from_dict"}
@@ -145,7 +145,7 @@ DRIVERS = ["MonteCarlo", "Canonical", "HamiltonianCanonical", "Isobaric", "Isote
 def plan(tier, seed):
     specs = []
     for d in DRIVERS:
-        for j in range(2 if tier == "quick" else 6):
+        for j in range(2 if tier == "quick" else 16):
             specs.append({"name": f"{d}{j}", "driver": d, "j": j, "seed": seed, "sims": 30 if tier == "quick" else 60, "steps": 25 if tier == "quick" else 60})
     return specs
 
@@ -183,7 +183,14 @@ def run(spec):
         seed = derive_seed("c20", spec["seed"], spec["name"], i)
         s = base_spec(driver, rng, seed)
         neighbour = None
-        if driver == "GrandCanonical" and i % 2 == 0:
+        if driver == "GrandCanonical" and i % 4 == 2:
+            # a shipped composite that deletes a two-atom particle and then inserts a one-atom one in the same trial: the
+            # atom count changes although the net number of exchanged particles does not
+            neighbour = "swap-of-unequal-particles"
+            s["atoms"] = {"kind": "molecules", "nmol": int(rng.integers(2, 4)), "molsize": 2, "framework": 0, "edge": 8.0, "seed": int(rng.integers(10**6)), "extras": ["momenta"]}
+            s["table"].append({"name": "sw", "move": {"t": "+", "parts": [{"t": "E", "bias": 0.0}, {"t": "E", "bias": 1.0}]}, "criteria": "random:0.7"})
+            s["table"].append({"name": "x", "move": {"t": "E", "bias": 0.8}, "criteria": "random:0.7"})
+        elif driver == "GrandCanonical" and i % 2 == 0:
             neighbour = "exchange"
             s["table"].append({"name": "x", "move": {"t": "E"}, "criteria": "random:0.7"})
         if driver in ("Isobaric", "Isotension") and i % 2 == 0:
@@ -269,6 +276,8 @@ def run(spec):
                 dn = t.after["n"] - t.before["n"]
                 if dn != 0:
                     rec.count("atom_count_changes")
+                    if t.name == "sw":
+                        rec.count("accepted_swaps_changing_atom_count")
                     for name, mv, *_ in users:
                         got = t.after["notes"][name][0] - t.before["notes"][name][0]
                         if got < 1:
